@@ -945,14 +945,17 @@ DefaultModule(tname, s, E) ==
          IF Bad(m) THEN m ELSE R(m.v, [m.S EXCEPT !.mods = MapSet(@, tname, m.v)])
 
 \* resolve the template expression of include / import / extends:
-\* a name, or a list of names (first existing wins)
+\* a name, a template object (data value "tplobj": a loaded template, used as it is), or a list of
+\* names / template objects (first existing wins)
+Usable(x) == (x.t = "str" /\ KeyName(x) # "?" /\ HasTpl(KeyName(x))) \/ x.t = "tplobj"
+NameOfT(x) == IF x.t = "tplobj" THEN x.n ELSE KeyName(x)
 PickTemplate(v) ==
-    CASE v.t = "str" -> IF KeyName(v) # "?" /\ HasTpl(KeyName(v)) THEN [ok |-> TRUE, n |-> KeyName(v)]
-                        ELSE [ok |-> FALSE, n |-> ""]
+    CASE v.t = "str" -> IF Usable(v) THEN [ok |-> TRUE, n |-> KeyName(v)] ELSE [ok |-> FALSE, n |-> ""]
+      [] v.t = "tplobj" -> [ok |-> TRUE, n |-> v.n]
       [] v.t = "list" ->
-           LET idx == {i \in 1..Len(v.v) : v.v[i].t = "str" /\ KeyName(v.v[i]) # "?" /\ HasTpl(KeyName(v.v[i]))} IN
+           LET idx == {i \in 1..Len(v.v) : Usable(v.v[i])} IN
            IF idx = {} THEN [ok |-> FALSE, n |-> ""]
-           ELSE [ok |-> TRUE, n |-> KeyName(v.v[CHOOSE i \in idx : \A j \in idx : i <= j])]
+           ELSE [ok |-> TRUE, n |-> NameOfT(v.v[CHOOSE i \in idx : \A j \in idx : i <= j])]
       [] OTHER -> [ok |-> FALSE, n |-> "?"]
 
 Ex(st, s, E) ==
